@@ -112,6 +112,13 @@ fn used_names(case: &Case, txi: usize) -> (BTreeSet<String>, BTreeSet<String>, B
                 }
             }
             GDirective::TreasuryDonation { coin } => visit(coin),
+            GDirective::Publish { to, amount, datum, .. } => {
+                visit(to);
+                visit(amount);
+                if let Some(d) = datum {
+                    visit(d);
+                }
+            }
             _ => {}
         }
     }
